@@ -17,7 +17,9 @@ Definition unraw (s : string) : string :=
   | String "r" (String "#" rest) => rest
   | _ => s
   end.
-Definition path_to_string (p : path) : string := join "::" (map (fun seg => unraw (fst seg)) (p_segs p)).
+(** a global path ([::a]) is a different path from [a]: the leading colons are part of the name *)
+Definition path_to_string (p : path) : string :=
+  ((if p_leading p then "::" else "") ++ join "::" (map (fun seg => unraw (fst seg)) (p_segs p)))%string.
 
 (** [syn::Path::get_ident] *)
 Definition get_ident (p : path) : option string :=
